@@ -284,24 +284,38 @@ def _match_lengths(pattern, limit=8):
 # ---- (c) state-name formats ---------------------------------------------------------------------------------------
 
 def _format_language(ctx, f):
-    """regular expression for the names a formatting function can return (components match \\w+)"""
-    alts = []
-    for r in walk_no_nested(f.node):
-        if not isinstance(r, ast.Return) or r.value is None:
-            continue
-        v = resolve_alias(f, r.value)
-        if isinstance(v, ast.Call) and isinstance(v.func, ast.Name) and v.func.id in ('State', 'Symbol') and len(v.args) == 1:
-            v = v.args[0]
+    """regular expression for the names a formatting function can return (components match \\w+); understands
+    '<fmt>'.format(..), f-strings, concatenation with +, '<sep>'.join(..) components and constants"""
+    def comp(a):
+        a = resolve_alias(f, a) if isinstance(a, ast.Name) else a
+        if isinstance(a, ast.Call) and isinstance(a.func, ast.Attribute) and a.func.attr == 'join' and isinstance(a.func.value, ast.Constant):
+            sep = re.escape(a.func.value.value)
+            return r'\w+(?:' + sep + r'\w+)*'
+        if isinstance(a, ast.Constant) and isinstance(a.value, str):
+            return re.escape(a.value)
+        return r'\w+'
+
+    def lang(v):
+        v = resolve_alias(f, v) if isinstance(v, ast.Name) else v
+        if isinstance(v, ast.Call) and isinstance(v.func, ast.Name) and v.func.id in ('State', 'Symbol', 'str') and len(v.args) == 1:
+            return lang(v.args[0])
         if isinstance(v, ast.Constant) and isinstance(v.value, str):
-            alts.append(re.escape(v.value))
-        elif isinstance(v, ast.Call) and isinstance(v.func, ast.Attribute) and v.func.attr == 'format' and isinstance(v.func.value, ast.Constant):
-            comps = []
-            for a in v.args:
-                if isinstance(a, ast.Call) and isinstance(a.func, ast.Attribute) and a.func.attr == 'join' and isinstance(a.func.value, ast.Constant):
-                    sep = re.escape(a.func.value.value)
-                    comps.append(r'\w+(?:' + sep + r'\w+)*')
+            return re.escape(v.value)
+        if isinstance(v, ast.BinOp) and isinstance(v.op, ast.Add):
+            a, b = lang(v.left), lang(v.right)
+            return None if a is None or b is None else a + b
+        if isinstance(v, ast.JoinedStr):
+            out = ''
+            for part in v.values:
+                if isinstance(part, ast.Constant):
+                    out += re.escape(part.value)
                 else:
-                    comps.append(r'\w+')
+                    out += '(?:' + comp(part.value) + ')'
+            return out
+        if isinstance(v, ast.Call) and isinstance(v.func, ast.Attribute) and v.func.attr == 'join' and isinstance(v.func.value, ast.Constant):
+            return '(?:' + comp(v) + ')'
+        if isinstance(v, ast.Call) and isinstance(v.func, ast.Attribute) and v.func.attr == 'format' and isinstance(v.func.value, ast.Constant):
+            comps = [comp(a) for a in v.args]
             fmt = v.func.value.value
             out = ''
             i = 0
@@ -320,9 +334,17 @@ def _format_language(ctx, f):
                 else:
                     out += re.escape(fmt[i])
                     i += 1
-            alts.append(out)
-        else:
+            return out
+        return None
+
+    alts = []
+    for r in walk_no_nested(f.node):
+        if not isinstance(r, ast.Return) or r.value is None:
+            continue
+        a = lang(r.value)
+        if a is None:
             return None
+        alts.append(a)
     if not alts:
         return None
     return '|'.join('(?:' + a + ')' for a in alts)
